@@ -136,6 +136,7 @@ DecPlaces(d) ==
 NumToText(x) ==
     IF ~SafeNum(x) THEN Open
     ELSE IF x.d = 1 THEN Txt(IntToCodes(x.n))
+    ELSE IF Abs(x.n) * 10000 < x.d THEN Open          \* |x| < 0.0001: plain or scientific spelling is a formatting matter
     ELSE LET k == DecPlaces(x.d) IN
          IF k < 0 THEN Open
          ELSE LET m  == (Abs(x.n) * Pow10(k)) \div x.d
